@@ -511,3 +511,8 @@ add('C17', 'utf-8-becomes-utf-8-sig', GIO, ENC_OLD, "        encoding = config.g
 add('C07', 'utf-8-becomes-utf-8-sig', GIO, ENC_OLD, "        encoding = config.get('TRAINING_DATASET_DETAILS','encoding')\n        if encoding.lower() in ('utf-8', 'utf8'):\n            encoding = 'utf-8-sig'\n        ruleset_info['encoding'] = encoding", 'fire', 'C07.R13')
 add('C07', 'encoding-through-a-local *', GIO, ENC_OLD, "        recorded = config.get('TRAINING_DATASET_DETAILS','encoding')\n        ruleset_info['encoding'] = recorded", 'silent')
 add('C20', 'terminal-filter-drops-last-line', ERF, "    print('Checking grammars for terminals...')\n    return_grammar = ''\n    for line in grammar.split('\\n'):\n        if not line:\n            continue\n", "    print('Checking grammars for terminals...')\n    return_grammar = ''\n    for line in grammar.split('\\n')[:-1]:\n", 'fire', 'C20.R4')
+PARS_INIT = "        self.count_alpha = {}\n"
+add('C06', 'alpha-table-at-class-level', PARS, [("class PCFGPasswordParser:\n", "class PCFGPasswordParser:\n    count_alpha = {}\n"), (PARS_INIT, "")], None, 'fire', 'C06.R12')
+GEN1 = "            if skip_brute:\n                for value in file:\n                    # Split up the tab seperated items and then save their values\n                    split_values = value.rstrip().split(\"\\t\")\n"
+GEN2 = "            for value in file:\n\n                # Split up the tab seperated items and then save their values\n                split_values = value.rstrip().split(\"\\t\")\n"
+add('C14', 'one-generator-for-both-passes', GIO, [(GEN1, "            entries = (line.rstrip().split(\"\\t\") for line in file)\n            if skip_brute:\n                for split_values in entries:\n"), (GEN2, "            for split_values in entries:\n")], None, 'fire', 'C14.R15')
